@@ -28,7 +28,15 @@ PROP = {'title': 'Textual and binary encodings round-trip losslessly',
          'garbage and out-of-range decimal texts ([-70000,70000] for 16 bit, boundaries for 32/64 bit) must give nothing; enums with '
          '1/3/4/9 enumerators (prefix-related and case-related names): every enumerator, every ordered pair in one stream, every string '
          'of a candidate set (all strings over {a,b,c} up to length 5 (quick 4), prefixes/suffixes/case changes/extensions of the names) '
-         'against exact table lookup, narrow and wide streams; vector/dim<int,N<=3 (4 thorough)> over {-2..2}^N and all pairs over the '
+         'against exact table lookup, narrow and wide streams; the same for three enums whose to_string customisation returns '
+         'std::string_view slices that are not NUL-terminated (slices of one literal, of an exact-size heap block, overlapping slices; '
+         'one name a prefix of another) plus to_static; *_locale entry points: every 16-bit integer, the 32/64-bit lattice and floats '
+         'whose 6-digit text is exact, through output_to_string_locale<string|wstring>, output_to_std_string_locale, '
+         'output_to_std_wstring_locale, output_to_fcppt_string_locale -> extract_from_string_locale with locales built from custom '
+         'numpunct<char/wchar_t> facets (grouping 3 with , or . separator, decimal comma, 3;2 and 1 groupings) in 10 (global locale, given '
+         'locale) combinations: the text equals a hand-grouped decimal reference, reads back with the same locale, and a text containing '
+         'a separator does not yield the value when read with the classic locale; the plain forms round-trip under each of those global '
+         'locales; vector/dim<int,N<=3 (4 thorough)> over {-2..2}^N and all pairs over the '
          'integer lattice: output text = "(a,b,...)", output->input identity, every proper prefix and every wrong delimiter rejected. '
          'Conversions: every Unicode scalar value U+0001..U+10FFFF except surrogates singly (quick: every 17th plus the boundaries of the '
          'UTF-8 length classes), all strings up to length 6 (quick 4) over {a, U+00E9, U+20AC, U+1F600}, structured long strings; each '
@@ -38,7 +46,8 @@ PROP = {'title': 'Textual and binary encodings round-trip losslessly',
          'enumerator cases always, pairs of different enumerators, non-empty non-names; vector: N>=2 with a negative or multi-digit '
          'component; conversions: the string contains a multi-byte character. Cases are distinct (function, argument) tuples',
  'assumptions': ['wchar_t is UTF-32 and the locale C.UTF-8 is installed; fcppt::string_conv_locale() is std::locale("") and sees LC_ALL=C.UTF-8',
-                 'fcppt::insert_extract_locale() is the global C++ locale; it is set to C and to C.UTF-8 (no digit grouping in either)',
+                 'fcppt::insert_extract_locale() is the global C++ locale; it is set to C, C.UTF-8 and to locales with custom numpunct facets (only C/C.UTF-8/POSIX are installed)',
+                 'the text written with a locale is compared with a grouped decimal reference for integers only; floats are checked for the round trip and for not being readable as the same value by the classic locale',
                  'only strings of valid characters are converted: U+0000, surrogates, values above U+10FFFF and malformed UTF-8 are outside the statement',
                  'negative decimal texts read into unsigned types are skipped (iostreams define them to wrap)',
                  'floating point values are covered for the binary encodings only; their default-precision text form is not lossless by design',
